@@ -562,6 +562,9 @@ func wholeRun(mode, rate string, maxDur time.Duration, conc int, bodySleep time.
 func scenariosFor(tier string) []vrt.Scenario {
 	var out []vrt.Scenario
 	addRun := func(d int, sc vrt.Scenario) {
+		if strings.Contains(sc.Name, "maxdur=1m23s") || strings.Contains(sc.Name, "maxdur=6m3s") {
+			sc.MaxExec = 400 // minutes of virtual time per execution: the default schedule and its nearest neighbours
+		}
 		sc.Bound = d
 		sc.Name += "/policy=delay"
 		out = append(out, sc)
@@ -580,6 +583,9 @@ func scenariosFor(tier string) []vrt.Scenario {
 		addRun(0, wholeRun("constant", "2/100ms", 310*time.Millisecond, 2, 30*time.Millisecond, 0, true))
 		addRun(0, wholeRun("users", "", 310*time.Millisecond, 2, 100*time.Millisecond, 3, true))
 		addRun(0, usersFirst("2/100ms", 5*time.Second, 2, 150*time.Millisecond))
+		// a run long enough for the progress cadence to change (every second for the first minute, then every ten
+		// seconds): a snapshot after the change covers what was recorded since the one before it like any other
+		addRun(0, wholeRun("constant", "3/1s", 83*time.Second, 2, 20*time.Millisecond, 0))
 		addRun(1, interrupted("constant", "2/100ms", 250*time.Millisecond, 2, 150*time.Millisecond))
 		addRun(0, interrupted("users", "", 250*time.Millisecond, 2, 150*time.Millisecond))
 		// lean: one iteration, the progress tick and the end of the run at the same instant; three deviations
@@ -598,6 +604,8 @@ func scenariosFor(tier string) []vrt.Scenario {
 		addRun(1, wholeRun("constant", "2/100ms", 310*time.Millisecond, 2, 30*time.Millisecond, 0, true))
 		addRun(1, wholeRun("users", "", 310*time.Millisecond, 2, 100*time.Millisecond, 3, true))
 		addRun(1, usersFirst("2/100ms", 5*time.Second, 2, 150*time.Millisecond))
+		addRun(0, wholeRun("constant", "3/1s", 83*time.Second, 2, 20*time.Millisecond, 0))
+		addRun(0, wholeRun("users", "", 6*time.Minute+3*time.Second, 1, 900*time.Millisecond, 0)) // across the second cadence change (five minutes) too
 		addRun(2, interrupted("constant", "2/100ms", 250*time.Millisecond, 2, 150*time.Millisecond))
 		addRun(1, interrupted("users", "", 250*time.Millisecond, 2, 150*time.Millisecond))
 	}
